@@ -330,7 +330,7 @@ def run_check(check, tier="quick", seed=0, replay_only=None):
             reach = {}
             for ob in r["obligations"]:
                 if ob["kind"] == "assert":
-                    reach[ob["name"]] = reach.get(ob["name"], False) or ob["result"] in ("sat", "unknown") or (ob["result"] == "unsat" and ob.get("reachable", True))
+                    reach[ob["name"]] = reach.get(ob["name"], False) or ob["result"] in ("sat", "unknown", "trivial") or (ob["result"] == "unsat" and ob.get("reachable", True))
             for nm, ok in reach.items():
                 if not ok and nm not in e.get("may_be_unreachable", ()):
                     infra.append("%s: assertion %r is unreachable in every instance (vacuous harness)" % (r["entry"], nm))
@@ -347,7 +347,11 @@ def run_check(check, tier="quick", seed=0, replay_only=None):
                     covers_sat += 1
                 elif cname not in e.get("cover_optional", ()):
                     infra.append("%s: cover point %r is %s (reachability witness failed)" % (r["entry"], cname, cres))
+            seen_v = set()
             for v in r["violations"]:
+                if (v["name"], v["kind"]) in seen_v and v["kind"] != "unwind":
+                    continue  # one counterexample per assertion / panic message and entry is replayed and reported
+                seen_v.add((v["name"], v["kind"]))
                 # known finding?
                 matched = None
                 for f in kf:
